@@ -33,6 +33,9 @@ def _worker(pid, inst, tier, conn):
         from symx.report import InstanceReport
         mod = importlib.import_module("harness." + pid)
         rep = InstanceReport(inst["name"])
+        budget = inst.get("timeout", None) or float(os.environ.get("VERIF_INSTANCE_BUDGET", "230"))
+        rep.soft_deadline = time.time() + max(10.0, budget - 40.0)
+        rep.flush = lambda d: conn.send(d)
         try:
             getattr(mod, inst["func"])(rep, tier=tier, **inst.get("kwargs", {}))
         except BaseException as e:   # noqa - includes engine aborts escaping a harness
@@ -52,6 +55,8 @@ def run_instances(pid, insts, tier, nproc, per_instance_timeout):
     pending = list(insts)
     running = []
     results = []
+    partials = {}
+    os.environ["VERIF_INSTANCE_BUDGET"] = str(per_instance_timeout)
     while pending or running:
         while pending and len(running) < nproc:
             inst = pending.pop(0)
@@ -63,25 +68,35 @@ def run_instances(pid, insts, tier, nproc, per_instance_timeout):
         still = []
         for p, pc, inst, t0 in running:
             done = False
-            if pc.poll(0):
+            msg = None
+            alive = p.is_alive()
+            while pc.poll(0 if alive else 0.2):
                 try:
-                    results.append(pc.recv())
+                    m = pc.recv()
                 except EOFError:
-                    results.append({"name": inst["name"], "errors": ["worker died without result"]})
+                    break
+                if m.get("partial"):
+                    partials[inst["name"]] = m
+                else:
+                    msg = m
+                    break
+            if msg is not None:
+                results.append(msg)
                 done = True
-            elif not p.is_alive():
-                if pc.poll(0.2):
-                    try:
-                        results.append(pc.recv())
-                    except EOFError:
-                        results.append({"name": inst["name"], "errors": ["worker died without result"]})
+            elif not alive:
+                part = partials.get(inst["name"])
+                if part is not None:
+                    part.setdefault("errors", []).append(f"worker exited with code {p.exitcode} before finishing; results so far are kept")
+                    results.append(part)
                 else:
                     results.append({"name": inst["name"], "errors": [f"worker exited with code {p.exitcode} without result"]})
                 done = True
             elif time.time() - t0 > inst.get("timeout", per_instance_timeout):
                 p.kill()
-                results.append({"name": inst["name"], "timed_out": True,
-                                "inconclusive": [f"instance stopped after {inst.get('timeout', per_instance_timeout)} s (budget)"]})
+                part = partials.get(inst["name"], {"name": inst["name"]})
+                part.setdefault("inconclusive", []).append(f"instance stopped after {inst.get('timeout', per_instance_timeout)} s (budget); results so far are kept")
+                part["timed_out"] = True
+                results.append(part)
                 done = True
             if done:
                 p.join(1)
